@@ -1,5 +1,7 @@
 import AkVerif.Lemmas.ColorsConfReentrant
 import AkVerif.Lemmas.ColorsConfMulti
+import AkVerif.Lemmas.ColorsConfFlatten
+import AkVerif.Lemmas.ColorsConfMultiSrc
 /-!
 # C14 — syntax colors resolve by inheritance, independent of registration order
 
@@ -681,7 +683,7 @@ theorem sub_palette_fresh (classes : List ClassDef) (nc : Bool) (cfg : Cfg) (ops
 
 /-! ### several configurations taking turns as the global one
 
-`runM` is what the driver executes: configurations are created (`new`), operated on (`on i`), made the global
+`runM` (through `KOp.m` of part 8) is what the driver executes: configurations are created (`new`), operated on (`on i`), made the global
 one (`setGlobal i` *replaces* the global index), synced palettes are created from the current global
 configuration (`syn`) and read (`sget`). -/
 
@@ -723,66 +725,163 @@ theorem synced_follow_current_global (classes : List ClassDef) (ops : List MOp) 
   obtain ⟨cd, hcd, hs⟩ := hi.fresh j c hg hc k s hk
   exact ⟨cd, hcd, hs, fun a _ => getColor_spec (hi.confs j c hc).good a.2⟩
 
-/-- **Registration through a no-colour palette is a registration.** `P_k(conf, no_color=True)` registers the class
-(and its parent palettes) in the configuration it is called with — every time, whatever the per-class no-colour
-palette object already exists from another configuration: afterwards the class counts as registered there and every
-id of its `SYNTAX_DEFAULTS` is described. (With several configurations this is the step on the view of the
-configuration the call is aimed at, `stepM … (.on i (.pal k true))`.) -/
-theorem nocolor_palette_registers (classes : List ClassDef) (nc : Bool) (cfg : Cfg) (ops : List GOp) (g g' : GWorld)
-    (h : runAll classes nc cfg ops = .ok g) (k : Nat) (s : Snap) (cd : ClassDef) (dflt : Cfg)
+/-- **Registration through a no-colour palette is a registration — in the configuration it is called with.** After
+any case with any number of configurations (`runM`, what the driver executes), `P_k(conf_i, no_color=True)` registers
+the class (and its parent palettes) in configuration `i` — whatever the per-class no-colour palette object, shared by
+all configurations, already holds from a request through ANOTHER configuration: afterwards the class counts as
+registered in configuration `i`, every id of its `SYNTAX_DEFAULTS` is described there, and the palette handed out is
+effect-free. -/
+theorem nocolor_palette_registers (classes : List ClassDef) (ops : List MOp) (m m' : MWorld)
+    (h : runM classes ⟨[], [], none, []⟩ ops = .ok m) (i k : Nat) (r : Option Snap) (cd : ClassDef) (dflt : Cfg)
     (hcd : classes[k]? = some cd) (hdf : cd.defaults = some dflt)
-    (hp : getPaletteG classes g k true = .ok (g', s)) :
-    Src.cls k ∈ g'.w.conf.sources ∧ (∀ kv ∈ flatten dflt, (strOf g'.w.conf.map kv.1).isSome = true) ∧
-      ∀ x ∈ s, x.2.2 = [] := by
-  have hreg := (registered_class_described classes nc cfg ops g h).2 k cd dflt
-  unfold getPaletteG at hp
-  simp only [hcd, if_true] at hp
-  cases h1 : registerClassG classes (gFuel classes) g k with
-  | error e => simp [h1] at hp
-  | ok g1 =>
-    simp only [h1] at hp
-    obtain ⟨hin, hdesc⟩ := hreg g1 hcd hdf h1
-    -- the palette itself is effect-free
-    have hplain : ∀ (s0 : Snap), s0 = plainSnap cd.accessors → ∀ x ∈ s0, x.2.2 = [] := by
-      intro s0 hs0 x hx
-      subst hs0
-      simp [plainSnap] at hx
-      obtain ⟨a, b, _, rfl⟩ := hx
-      rfl
-    unfold runAll at h
-    cases h0 : newConf nc cfg with
-    | error err => simp [h0] at h
-    | ok c =>
-      simp only [h0] at h
-      obtain ⟨hgc, _, _⟩ := newConf_good (classes := classes) h0
-      have hi0 : GInv classes ⟨⟨c, []⟩, false, []⟩ :=
-        ⟨⟨hgc, fun k s hk => by simp [cacheGet] at hk⟩, fun hf => by cases hf⟩
-      obtain ⟨hi, _⟩ := runG_inv ops _ g hi0 h
-      have hi1 := hi.step (registerClassG_step _ g k g1 hi.good h1)
-      cases hc : cacheGet g1.w.ncCache k with
-      | some s0 =>
-        simp [hc] at hp
-        obtain ⟨hw, hs⟩ := hp
-        subst hw; subst hs
-        obtain ⟨cd', hcd', hs0⟩ := hi1.good.nc k s0 hc
-        rw [hcd] at hcd'; cases hcd'
-        exact ⟨hin, hdesc, hplain s0 hs0⟩
-      | none =>
-        simp [hc] at hp
-        obtain ⟨hw, hs⟩ := hp
-        subst hw; subst hs
-        exact ⟨hin, hdesc, hplain _ rfl⟩
+    (hp : stepM classes m (.on i (.pal k true)) = .ok (m', r)) :
+    ∃ c' s, m'.confs[i]? = some c' ∧ r = some s ∧ Src.cls k ∈ c'.sources ∧
+      (∀ kv ∈ flatten dflt, (strOf c'.map kv.1).isSome = true) ∧ ∀ x ∈ s, x.2.2 = [] := by
+  have hi := runM_inv ops _ m (minv_empty classes) h
+  have hs := runM_msrc ops _ m (minv_empty classes) (msrc_empty classes) h
+  simp only [stepM] at hp
+  cases hc : m.confs[i]? with
+  | none => simp [hc] at hp
+  | some c =>
+    simp only [hc, stepG] at hp
+    cases h1 : getPaletteG classes (viewOf m i c) k true with
+    | error e => simp [h1] at hp
+    | ok gs =>
+      obtain ⟨g', s⟩ := gs
+      simp [h1] at hp
+      obtain ⟨hm, hr⟩ := hp
+      subst hm
+      obtain ⟨hin, hdesc, hplain⟩ := getPaletteG_nocolor_registers (hi.view hc) (hs i c hc) hcd hdf h1
+      exact ⟨g'.w.conf, s, by simp only [putBack]; exact getElem?_set_self' hc, hr.symm, hin, hdesc, hplain⟩
 
-/-- **A kept `conf.get_palette()` belongs to its configuration.** Whatever an operation is aimed at — another
-configuration, a swap of the global configuration to another one, a synced palette of the global configuration —
-a configuration it is not aimed at is left exactly as it was; so `palette[id]` of a kept result of
-`get_palette()` (`keptItem`) answers from the configuration it was obtained from, not from whichever
-configuration is the global one now (and its accessor attributes are values fixed when it was built). -/
-theorem kept_palette_own_configuration (classes : List ClassDef) (m m' : MWorld) (op : MOp) (r : Option Snap) (i : Nat)
-    (c : Conf) (h : stepM classes m op = .ok (m', r)) (ht : opTarget m op ≠ some i) (hc : m.confs[i]? = some c) :
-    m'.confs[i]? = some c ∧ (∀ id, keptItem m' i id = keptItem m i id) ∧ globalPaletteOf c = snapOf c Gen.C14.gpAccessors := by
-  have := stepM_other_conf h ht hc
-  exact ⟨this, fun id => by simp [keptItem, this, hc], rfl⟩
+/-- the configuration an operation of part 8 can modify -/
+def kTarget (k : KWorld) : KOp → Option Nat
+  | .m op => opTarget k.m op
+  | _ => none
+
+/-- **A kept `conf.get_palette()` belongs to its configuration.** The kept palettes are part of the state the driver
+executes (`KWorld.kept`: configuration index and accessor attributes as built).  Whatever one operation does —
+aimed at another configuration, swapping the global configuration, creating or re-syncing synced palettes, keeping
+or reading another palette —: (1) every kept entry stays exactly as it was built; (2) a configuration the operation
+is not aimed at is left exactly as it was; (3) `get_palette()` keeps the accessor attributes `get_color` gives at
+that moment and changes nothing else; (4) reading kept palette `n` changes nothing and answers with the attributes
+as built and with `get_color(id)` of the configuration it was obtained from, as that configuration is now — the global
+index and the other configurations do not enter the answer. -/
+theorem kept_palette_own_configuration (classes : List ClassDef) (k k' : KWorld) (op : KOp) (r : KReply)
+    (h : stepK classes k op = .ok (k', r)) :
+    (∀ (n : Nat) e, k.kept[n]? = some e → k'.kept[n]? = some e) ∧
+    (∀ (i : Nat) c, k.m.confs[i]? = some c → kTarget k op ≠ some i → k'.m.confs[i]? = some c) ∧
+    (∀ i, op = .gpal i → ∃ c, k.m.confs[i]? = some c ∧ k'.m = k.m ∧
+      k'.kept = k.kept ++ [(i, snapOf c Gen.C14.gpAccessors)] ∧ r = ⟨some (snapOf c Gen.C14.gpAccessors), none⟩) ∧
+    (∀ (n : Nat) id, op = .gread n id → k' = k ∧ ∃ (i : Nat) (s : Snap) (c : Conf), k.kept[n]? = some (i, s) ∧ k.m.confs[i]? = some c ∧
+      r = ⟨some s, some (getColor c id)⟩) := by
+  cases op with
+  | m o =>
+    simp only [stepK] at h
+    cases h1 : stepM classes k.m o with
+    | error e => simp [h1] at h
+    | ok ms =>
+      obtain ⟨m', s⟩ := ms
+      simp [h1] at h
+      obtain ⟨hk, _⟩ := h; subst hk
+      refine ⟨fun n e he => he, fun i c hc ht => stepM_other_conf h1 ht hc, fun i hi => (by cases hi),
+        fun n id hi => by cases hi⟩
+  | gpal j =>
+    simp only [stepK] at h
+    cases hc : k.m.confs[j]? with
+    | none => simp [hc] at h
+    | some c =>
+      simp [hc] at h
+      obtain ⟨hk, hr⟩ := h; subst hk; subst hr
+      refine ⟨fun n e he => ?_, fun i c' hc' _ => hc', fun i hi => ?_, fun n id hi => by cases hi⟩
+      · simp only
+        rw [List.getElem?_append, if_pos (lt_of_getElem? he)]; exact he
+      · cases hi
+        exact ⟨c, hc, rfl, rfl, rfl⟩
+  | gread n id =>
+    simp only [stepK] at h
+    cases hk : k.kept[n]? with
+    | none => simp [hk] at h
+    | some e =>
+      obtain ⟨i, s⟩ := e
+      simp only [hk] at h
+      cases hc : k.m.confs[i]? with
+      | none => simp [keptItem, hc] at h
+      | some c =>
+        simp [keptItem, hc] at h
+        obtain ⟨hk', hr⟩ := h; subst hk'; subst hr
+        refine ⟨fun n e he => he, fun i c' hc' _ => hc', fun i hi => (by cases hi), fun n' id' hi => ?_⟩
+        cases hi
+        exact ⟨rfl, i, s, c, hk, hc, rfl⟩
+
+/-- kept entries survive a whole sequence of operations unchanged -/
+theorem kept_entries_fixed (classes : List ClassDef) : ∀ (ops : List KOp) (k k' : KWorld),
+    runK classes k ops = .ok k' → ∀ (n : Nat) e, k.kept[n]? = some e → k'.kept[n]? = some e := by
+  intro ops
+  induction ops with
+  | nil => intro k k' h n e he; simp [runK] at h; subst h; exact he
+  | cons op ops ih =>
+    intro k k' h n e he
+    unfold runK at h
+    cases h1 : stepK classes k op with
+    | error x => simp [h1] at h
+    | ok kr =>
+      obtain ⟨k1, r⟩ := kr
+      simp [h1] at h
+      exact ih k1 k' h n e ((kept_palette_own_configuration classes k k1 op r h1).1 n e he)
+
+/-! ### flat or nested spelling of the descriptions; groups called like a syntax -/
+
+/-- **Flat or nested.** A case depends on the constructor's dictionary only through its flattened form: every
+(nested) dictionary behaves exactly as its flat spelling `{"A.B.C": …}`, and two dictionaries that flatten to the
+same items are interchangeable — in the constructor and as the argument of `register_color_conf_component`. -/
+theorem nested_same_as_flat (classes : List ClassDef) (nc : Bool) (cfg : Cfg) :
+    (∀ ops, runAll classes nc cfg ops = runAll classes nc (flatCfg (flatten cfg)) ops) ∧
+    (∀ ops, run classes nc cfg ops = run classes nc (flatCfg (flatten cfg)) ops) ∧
+    (∀ cfg', flatten cfg' = flatten cfg →
+      (∀ ops, runAll classes nc cfg' ops = runAll classes nc cfg ops) ∧
+      (∀ c src, registerComponent c cfg' src = registerComponent c cfg src)) := by
+  have e : newConf nc (flatCfg (flatten cfg)) = newConf nc cfg := by
+    simp only [newConf, flatten_flatCfg]
+  refine ⟨fun ops => by simp only [runAll, e], fun ops => by simp only [run, e], fun cfg' h => ⟨fun ops => ?_, fun c src => ?_⟩⟩
+  · simp only [runAll, newConf, h]
+  · simp only [registerComponent, h]
+
+/-- **Built-in syntaxes stay unless described explicitly.** A built-in id that is not an id of the flattened
+explicit configuration keeps its built-in description after every case (palettes, global configuration, synced
+palettes included), whatever else the explicit configuration contains. -/
+theorem builtin_kept (classes : List ClassDef) (nc : Bool) (cfg : Cfg) (ops : List GOp) (g : GWorld)
+    (h : runAll classes nc cfg ops = .ok g) (id : Id) (s : Str)
+    (hb : dictGet (flatten Gen.C14.builtin) id = some s) (hc : dictGet (flatten cfg) id = none) :
+    strOf g.w.conf.map id = some s ∧ ∃ d, parseInitStr s = .ok d ∧ descOf g.w.conf.map id = some d := by
+  unfold runAll at h
+  cases h1 : newConf nc cfg with
+  | error err => simp [h1] at h
+  | ok c =>
+    simp only [h1] at h
+    obtain ⟨hgc, _, hstr⟩ := newConf_good (classes := classes) h1
+    have hi0 : GInv classes ⟨⟨c, []⟩, false, []⟩ :=
+      ⟨⟨hgc, fun k s hk => by simp [cacheGet] at hk⟩, fun hf => by cases hf⟩
+    obtain ⟨hi, hl⟩ := runG_inv ops _ g hi0 h
+    have hcs : strOf c.map id = some s := by rw [hstr]; simp [firstStr, hc, hb]
+    have hw : strOf g.w.conf.map id = some s := hl.strs id s hcs
+    refine ⟨hw, ?_⟩
+    unfold strOf at hw
+    cases hlk : lookup g.w.conf.map id with
+    | none => simp [hlk] at hw
+    | some e =>
+      simp [hlk] at hw
+      exact ⟨e.desc, by rw [← hw]; exact hi.good.conf.good.parsed id e hlk, by simp [descOf, hlk]⟩
+
+/-- **A group called like a built-in syntax does not replace it.** If the explicit configuration uses the key `id`
+(a built-in id, no dot in it) for groups only — `{"ERROR": {"CODE": …}}` —, never for a description string, the
+built-in description of `id` is in the final set, exactly as with the flat spelling `{"ERROR.CODE": …}`. -/
+theorem group_named_like_builtin (classes : List ClassDef) (nc : Bool) (items : CfgItems) (ops : List GOp)
+    (g : GWorld) (h : runAll classes nc (.dict items) ops = .ok g) (id : Id) (s : Str)
+    (hb : dictGet (flatten Gen.C14.builtin) id = some s) (hdot : '.' ∉ id)
+    (hgrp : ∀ t, (id, Gen.C14.Cfg.str t) ∉ cfgEntries items) :
+    strOf g.w.conf.map id = some s ∧ ∃ d, parseInitStr s = .ok d ∧ descOf g.w.conf.map id = some d :=
+  builtin_kept classes nc (.dict items) ops g h id s hb (flatten_group_key_none items id hdot hgrp)
 
 /-! Non-vacuity: concrete histories evaluated by the kernel.  `B` refers to `A` (registered later) and
 selects the terminal default foreground with `-`; `C` refers to `B`.  Before `A` is known both are
@@ -944,5 +1043,36 @@ example : (parseInitStr "red:bold".toList = .ok ⟨some "red".toList, .unspec, .
     (parseInitStr "Bold:RED".toList = .ok ⟨some "Bold".toList, .col (.named "RED".toList), .unspec, []⟩) ∧
     (parseInitStr "A:red".toList = .error .valueError) ∧ (parseInitStr "red:GREEN".toList =
       .ok ⟨some "red".toList, .col (.named "GREEN".toList), .unspec, []⟩) := by decide +kernel
+
+-- groups called like a syntax: `{"ERROR": {"CODE": "ERROR:/g2"}, "NAME": {"SHORT": "NAME:no_bold"}}`
+def grpCfg : Cfg :=
+  .dict (.cons "ERROR".toList (.dict (.cons "CODE".toList (.str "ERROR:/g2".toList) .nil))
+    (.cons "NAME".toList (.dict (.cons "SHORT".toList (.str "NAME:no_bold".toList) .nil)) .nil))
+example : flatten grpCfg = [("ERROR.CODE".toList, "ERROR:/g2".toList), ("NAME.SHORT".toList, "NAME:no_bold".toList)] ∧
+    dictGet (flatten grpCfg) "ERROR".toList = none ∧
+    dictGet (flatten Gen.C14.builtin) "ERROR".toList = some "RED:bold".toList ∧
+    (∀ kv ∈ flatten Gen.C14.builtin, '.' ∉ kv.1) := by decide +kernel
+example : colorsAfter (run [] false grpCfg []) ["ERROR".toList, "ERROR.CODE".toList, "NAME.SHORT".toList] =
+    some ["\x1b[31;1m".toList, "\x1b[31;48:5:234;1m".toList, "\x1b[32m".toList] := by decide +kernel
+
+-- the per-class no-colour palette exists already (left by configuration 0) when configuration 1 asks for it:
+-- the class is registered in configuration 1 all the same
+def ncClasses : List ClassDef :=
+  [⟨[], some (.dict (.cons "C.A".toList (.str "RED:bold".toList) .nil)), [(['a'], "C.A".toList)]⟩]
+example : (match runM ncClasses ⟨[], [], none, []⟩
+      [.new false (.dict .nil), .new false (.dict .nil), .on 0 (.pal 0 true), .on 1 (.pal 0 true)] with
+    | .ok m => (m.ncCache.map (·.1), m.confs.map fun c => (decide (Src.cls 0 ∈ c.sources), getColor c "C.A".toList))
+    | .error _ => ([], [])) =
+    ([0], [(true, "\x1b[31;1m".toList), (true, "\x1b[31;1m".toList)]) := by decide +kernel
+
+-- a kept `get_palette()` of configuration 0 after configuration 1 became the global one and configuration 0 changed
+example : (match runK pendClasses ⟨⟨[], [], none, []⟩, []⟩
+      [.m (.new false pendCfg), .m (.new false (.dict .nil)), .m (.setGlobal 0), .gpal 0, .m (.setGlobal 1),
+       .m (.on 0 (.add [("X".toList, "TEXT:bold".toList)]))] with
+    | .ok k =>
+      (match stepK pendClasses k (.gread 0 "X".toList) with
+       | .ok (_, r) => (k.kept.map (·.1), k.m.glob, r.item)
+       | .error _ => ([], none, none))
+    | .error _ => ([], none, none)) = ([0], some 1, some "\x1b[31;1m".toList) := by decide +kernel
 
 end C14
